@@ -33,6 +33,8 @@ def install_format_stub():
         with NoTracing():
             if isinstance(obj, (BL.SymbolicInt, BL.SymbolicBool, BL.SymbolicFloat)):
                 return "<sym>"
+            if isinstance(obj, (list, tuple, dict, set)) or type(obj).__name__ in ("ShellMutableSequence", "SymbolicList", "LinearSet", "LinearDict"):
+                return "<container>"   # containers may hold symbolic numbers; message text is outside every claim
         return orig(obj, format_spec)
 
     core._PATCH_REGISTRATIONS[format] = _format_stub
